@@ -169,7 +169,7 @@ func runC20(c *Ctx) {
 	}
 
 	// R6: overwrite replaces the whole entry (or at least its expiry)
-	c.rule("C20-R6", "MPT: in Set and SetWithTags, on the key-already-present edge every path to return installs the expiry of the new value: it stores the freshly built Entry (whose ExpiresAt was computed from this call's ttl) into the list element, or assigns Entry.ExpiresAt — otherwise a lookup can return a value past its own TTL")
+	c.rule("C20-R6", "MPT: in Set and SetWithTags, on the key-already-present edge every path to return installs the expiry of the new value: it stores the freshly built Entry (whose ExpiresAt was computed from this call's ttl) into the list element, or assigns Entry.ExpiresAt — otherwise a lookup can return a value past its own TTL; and every such path to a success return moves the entry to the front of the recency list (a write is a use)")
 	for _, name := range []string{"LRUCache.Set", "LRUCache.SetWithTags"} {
 		fn := c.mustFn("C20-R6", cachePkg, name)
 		if fn == nil {
@@ -217,6 +217,17 @@ func runC20(c *Ctx) {
 						q := &pathQuery{fn: fn, target: isReturn, stop: installs}
 						hit, path := q.from(s, 0)
 						c.ob("C20-R6", cachePkg+"."+name+"#overwrite-installs-new-expiry", ifOf(b).Cond.Pos(), hit == nil, "overwriting an existing key can return without installing the new value's expiry: the old (longer) TTL keeps a value alive past its own TTL", c.blockPath(path)...)
+						// a write is a use: the overwritten key becomes the most recently used on every path to a success
+						// return (moved to the front, or removed and pushed to the front again)
+						bumps := func(x ssa.Instruction) bool {
+							return isCallTo(x, "container/list.List.MoveToFront", "container/list.List.PushFront")
+						}
+						q2 := &pathQuery{fn: fn, stop: bumps, target: func(x ssa.Instruction) bool {
+							r, ok := x.(*ssa.Return)
+							return ok && (len(r.Results) == 0 || isNilConst(stripConv(retVals(r)[len(r.Results)-1])))
+						}}
+						hit2, path2 := q2.from(s, 0)
+						c.ob("C20-R6", cachePkg+"."+name+"#overwrite-makes-the-key-most-recent", ifOf(b).Cond.Pos(), hit2 == nil, "overwriting an existing key can return successfully without moving the entry to the front of the recency list (a shortcut for an unchanged value): a key that is refreshed by writes only is evicted before keys nobody has touched since", c.blockPath(path2)...)
 					}
 				}
 			}
